@@ -199,26 +199,24 @@ def run(ctx, col: Collector):
             if tag[0] == 'mixed' and all('table_dict' in p for p in tag[1].split(' | ')):
                 tag = ('lookup', tag[1])
             judge('locate_table:return', tag, {'lookup', 'elem'}, 'self.database.table_dict', r, lt.file, 'locate_table')
-        # ReferenceBlueprint.build: endpoints are table[col] subscripts of located tables
+        # ReferenceBlueprint.build: endpoints are table[col] subscripts of located tables (helpers inlined, names resolved by dataflow)
+        from .dbrules import endpoint_resolution
         rb = idx.func(BP, 'ReferenceBlueprint.build')
-        call = [c for c in ast.walk(rb.node) if isinstance(c, ast.Call) and norm(c.func) == 'Reference']
-        if not call:
-            raise Unrecognised('ReferenceBlueprint.build does not construct Reference', rb.node)
-        for kw in call[0].keywords:
-            if kw.arg in ('col1', 'col2'):
-                side = kw.arg[-1]
-                tag = origin(kw.value, rb.node)
-                # element expression of the comprehension: table<side>[col]
-                tsrc = None
-                for n in walk_no_nested(rb.node):
-                    if isinstance(n, ast.Assign) and norm(n.targets[0]) == norm(kw.value) and isinstance(n.value, (ast.ListComp, ast.GeneratorExp)):
-                        el = n.value.elt
-                        if isinstance(el, ast.Subscript):
-                            tsrc = norm(el.value)
-                            ttag = origin(el.value, rb.node)
-                            judge(f'ReferenceBlueprint.build:{kw.arg}:table', ttag, {'lookup'}, 'locate_table', n, rb.file,
-                                  f'side {side} table')
-                judge(f'ReferenceBlueprint.build:{kw.arg}', tag, {'elem'}, f'table{side}', kw.value, rb.file, f'reference endpoint {kw.arg}')
+        ep, rfn = endpoint_resolution(ctx, rb)
+        for side in ('1', '2'):
+            info = ep[side]
+            cons = f'ReferenceBlueprint.build:col{side}'
+            fresh = [origin(c.elt, rfn) for c in info['comps'] if origin(c.elt, rfn)[0] == 'fresh']
+            if fresh:
+                col.bad('C05-identity', cons, f'reference endpoint col{side}: the linked object is {fresh[0][1]} instead of the Column held by the table - identity of the graph is lost',
+                        node=rb.node, file=rb.file)
+            elif info['subscripted'] and info['lookups'] and not info['other_sources']:
+                col.ok('C05-identity', cons, f'reference endpoint col{side}: elements of the table returned by locate_table', node=rb.node, file=rb.file)
+            elif info['comps'] and not info['subscripted']:
+                tags = [origin(c.elt, rfn) for c in info['comps']]
+                col.unk('C05-identity', cons, f'reference endpoint col{side}: cannot establish that `{norm(info["comps"][0].elt)[:50]}` ({tags[0][0]}) is the table\'s own Column', node=rb.node, file=rb.file)
+            else:
+                col.unk('C05-identity', cons, f'reference endpoint col{side}: cannot see how the endpoint list is built', node=rb.node, file=rb.file)
         # Reference.__init__ keeps the elements
         ri = idx.func('pydbml._classes.reference', 'Reference.__init__')
         for side in ('col1', 'col2'):
@@ -289,40 +287,34 @@ def run(ctx, col: Collector):
     resolution_guards(ctx, col, 'C05-resolve')
 
     def locate_calls():
-        n = 0
-        for cname in ('ReferenceBlueprint', 'TableGroupBlueprint'):
-            ci = idx.cls(BP, cname)
-            for m in ci.methods.values():
-                for c in ast.walk(m.node):
-                    if isinstance(c, ast.Call) and isinstance(c.func, ast.Attribute) and c.func.attr == 'locate_table':
-                        n += 1
-                        recv = norm(c.func.value)
-                        col.check(recv == 'self.parser', 'C05-resolve', f'{cname}.{m.node.name}:locate:receiver@{c.lineno - m.node.lineno}',
-                                  'resolved against the parser (database) of this parse',
-                                  f'locate_table is called on `{recv}`', node=c, file=m.file)
-                        if cname == 'ReferenceBlueprint':
-                            args = [norm(a) for a in c.args]
-                            sides = {a[-1] for a in args if a.startswith('self.') and a[-1] in '12'}
-                            okc = len(args) == 2 and args[0].startswith('self.schema') and args[1].startswith('self.table') and len(sides) == 1
-                            col.check(okc, 'C05-resolve', f'ReferenceBlueprint.{m.node.name}:locate({", ".join(args)})',
-                                      'schema and table name of one and the same side are resolved together',
-                                      f'ReferenceBlueprint resolves a table with locate_table({", ".join(args)}): schema and name come from different sides '
-                                      f'(or not from the blueprint), so an endpoint may land in the wrong schema', node=c, file=m.file)
-        col.floor('C05-resolve', 'locate_table call sites', n, 3)
-        # each side's table variable has exactly one source: the locate_table call of that side
+        from .dbrules import endpoint_resolution
         rb = idx.func(BP, 'ReferenceBlueprint.build')
+        ep, fn = endpoint_resolution(ctx, rb)
+        n = 0
         for side in ('1', '2'):
-            assigns = [a for a in ast.walk(rb.node) if isinstance(a, ast.Assign) and norm(a.targets[0]) == f'table{side}']
-            srcs = {norm(a.value) for a in assigns}
-            want = f'self.parser.locate_table(self.schema{side}, self.table{side})'
-            col.check(srcs == {want}, 'C05-resolve', f'ReferenceBlueprint.build:table{side}:single-source',
-                      f'table{side} is always the result of {want}',
-                      f'ReferenceBlueprint.build binds table{side} to {sorted(srcs)}: on some path side {side} is not resolved from its own schema and '
-                      f'name (e.g. reused from the other side)', node=assigns[0] if assigns else rb.node, file=rb.file)
+            info = ep[side]
+            want = [f'self.schema{side}', f'self.table{side}']
+            for call, args, recv in info['lookups']:
+                n += 1
+                col.check(recv == 'self.parser', 'C05-resolve', f'ReferenceBlueprint.build:side{side}:locate:receiver',
+                          'resolved against the parser (database) of this parse', f'locate_table is called on `{recv}`', node=call, file=rb.file)
+                col.check(args == want, 'C05-resolve', f'ReferenceBlueprint.build:side{side}:locate({", ".join(args)})',
+                          'schema and table name of one and the same side are resolved together',
+                          f'the table of side {side} is resolved with locate_table({", ".join(args)}) instead of ({", ".join(want)}): schema and name come from different sides '
+                          f'(or not from the blueprint), so the endpoint may land in the wrong schema', node=call, file=rb.file)
+            cons = f'ReferenceBlueprint.build:table{side}:single-source'
+            if info['other_sources']:
+                col.bad('C05-resolve', cons, f'the table whose columns become col{side} can also be `{info["other_sources"][0][:60]}` (not the result of '
+                        f'locate_table(self.schema{side}, self.table{side})): on some path side {side} is not resolved from its own schema and name', node=rb.node, file=rb.file)
+            elif info['lookups']:
+                col.ok('C05-resolve', cons, f'the side {side} table is always the result of locate_table', node=rb.node, file=rb.file)
+            else:
+                col.unk('C05-resolve', cons, f'cannot see where the table of side {side} comes from', node=rb.node, file=rb.file)
+        col.floor('C05-resolve', 'locate_table call sites of reference endpoints', n, 2)
         gb = idx.func(BP, 'TableGroupBlueprint.build')
         lc = [c for c in ast.walk(gb.node) if isinstance(c, ast.Call) and isinstance(c.func, ast.Attribute) and c.func.attr == 'locate_table']
-        col.check(len(lc) == 1 and len(lc[0].args) == 2, 'C05-resolve', 'TableGroupBlueprint.build:locate', 'group items use the same resolver',
-                  'TableGroupBlueprint.build does not resolve its items with locate_table(schema, name)', node=gb.node, file=gb.file)
+        col.check(len(lc) == 1 and len(lc[0].args) == 2 and norm(lc[0].func.value) == 'self.parser', 'C05-resolve', 'TableGroupBlueprint.build:locate', 'group items use the same resolver',
+                  'TableGroupBlueprint.build does not resolve its items with self.parser.locate_table(schema, name)', node=gb.node, file=gb.file)
     guarded(col, 'C05-resolve', 'locate-calls', locate_calls)
 
     # ---------------------------------------------------------------- C05-schema (default-schema constant)
